@@ -49,10 +49,19 @@ class Run:
         v.log("design %s: %d distinct / %d generated in %.1fs" % (what, res.distinct, res.generated, res.wall))
 
     # ---- execution on the real code -----------------------------------------------
+    COMMON = {"internal/pkg/table": "tablecommon", "pkg/server": "servercommon",
+              "pkg/packet/bgp": "bgpcommon"}
+
     def overlay(self, hname, pkgdir):
-        k = (hname, pkgdir)
+        """hname: harness subdir (or list of subdirs) compiled into pkgdir, together with the
+        shared helper dir of that package when it exists."""
+        names = [hname] if isinstance(hname, str) else list(hname)
+        c = self.COMMON.get(pkgdir)
+        if c and c not in names and os.path.isdir(os.path.join(v.HARNESS, c)):
+            names.append(c)
+        k = (tuple(names), pkgdir)
         if k not in self.overlay_cache:
-            self.overlay_cache[k] = v.overlay_for(self.sc, {hname: pkgdir})
+            self.overlay_cache[k] = v.overlay_for(self.sc, {n: pkgdir for n in names})
         return self.overlay_cache[k]
 
     def execute(self, hname, pkgdir, runre, behaviours, tag, env=None, race=False, timeout=1200):
